@@ -23,6 +23,13 @@ Theorem C06_integrand_defined : forall p z, pm_physical p ->
   pm_expo_defined p z /\ pm_denominator p z <> RtoC 0.
 Proof. exact (fun p z H => conj (physical_expo_defined p H z) (physical_denominator_nonzero p H z)). Qed.
 
+(* ... and every real division (1/k, 0.5/ks_f, |k|/n, sec^2) has a non-zero divisor for positive indices and frequencies *)
+Theorem C06_real_divisions_defined : forall p, pm_physical_real p ->
+  pm_k_s p <> 0 /\ pm_k_i p <> 0 /\ pm_k_p p <> 0 /\ pm_ks_f p <> 0 /\ pm_ki_f p <> 0 /\
+  p_n_s p <> 0 /\ p_n_i p <> 0 /\ pm_M2 p <> 0 /\
+  cos (p_theta_s_e p / 1) ^ 2 <> 0 /\ cos (p_theta_i_e p / 1) ^ 2 <> 0.
+Proof. exact real_divisions_defined. Qed.
+
 (* clause 1: integrand(exchanged setup)(omega_i, omega_s, z) = integrand(setup)(omega_s, omega_i, z) for ALL parameter values and all z *)
 Theorem C06_integrand_exchange : forall p, pm_physical p -> forall z, pm_integrand (pm_swap p) z = pm_integrand p z.
 Proof. exact integrand_exchange_physical. Qed.
@@ -110,11 +117,15 @@ Proof. exact (conj swap_field_source_pinned pm_type_inverse_pinned). Qed.
 Example C06_physical_example : pm_physical pm_example.
 Proof. exact physical_example. Qed.
 
+Example C06_physical_real_example : pm_physical_real pm_example.
+Proof. exact physical_real_example. Qed.
+
 Example C06_exchange_tie_example : exchange_tie (fun ws wi => pm_example) (fun a b => pm_swap pm_example).
 Proof. exact (fun ws wi => eq_refl). Qed.
 
 Print Assumptions C06_exponent_identities.
 Print Assumptions C06_integrand_defined.
+Print Assumptions C06_real_divisions_defined.
 Print Assumptions C06_integrand_exchange.
 Print Assumptions C06_integrand_exchange_pointwise.
 Print Assumptions C06_fiber_coupling_exchange.
